@@ -372,6 +372,23 @@ class TenSym(PySym):
     def unwrap(self, t):
         return t.data[0] if isinstance(t, Ten) and t.shape == () else t
 
+    def into_out(self, call, pos, res):
+        """a ufunc result: written into `out` (keyword, or positional argument number `pos`) when one is given, which is then what the call returns"""
+        outp = self.kw(call, "out", pos, None)
+        if outp is None:
+            return res
+        if not isinstance(outp, Ten):
+            raise Unsupported("out= of %s" % type(outp).__name__)
+        rt = self.to_ten(res)
+        if rt.shape != outp.shape:
+            raise Raised("the analysed path raises: ValueError (out= has shape %s, the result %s)" % (outp.shape, rt.shape), "ValueError")
+        if isinstance(outp.data, ViewData):
+            for i_, v_ in enumerate(rt.data):
+                outp.data[i_] = v_
+        else:
+            outp.data[:] = rt.data
+        return outp
+
     def concrete(self, v):
         """python int for sizes / indices / axes"""
         if isinstance(v, bool):
@@ -1230,7 +1247,9 @@ class TenSym(PySym):
             return Ten.full(t.shape, Rat(Poly.const(0 if cn == "np.zeros_like" else 1)))
         if cn in ("np.sqrt", "np.cos", "np.sin", "np.arccos", "np.exp", "np.log", "np.abs", "np.cbrt", "np.tan", "np.arcsin"):
             f = {"arccos": "acos", "arcsin": "asin"}.get(last, last)
-            return self.elementwise(lambda x: self.fn(f, x), A(0))
+            return self.into_out(n, 1, self.elementwise(lambda x: self.fn(f, x), A(0)))
+        if cn in ("np.arctan2",):
+            return self.into_out(n, 2, self.elementwise(lambda y, x: self.fn("arctan2", y, x), A(0), A(1)))
         if cn in ("np.square",):
             return self.elementwise(lambda x: x * x, A(0))
         if cn in ("np.radians", "np.deg2rad"):
@@ -1334,10 +1353,13 @@ class TenSym(PySym):
             outp = self.kw(n, "out", 3, None)
 
             def cl(x):
-                if self.sign(x - lo) < 0:
-                    return lo
-                if self.sign(x - hi) > 0:
-                    return hi
+                try:
+                    if self.sign(x - lo) < 0:
+                        return lo
+                    if self.sign(x - hi) > 0:
+                        return hi
+                except Unsupported:
+                    return self.fn("clip", x, lo, hi)      # a symbolic operand: clip stays an opaque function of (x, lo, hi)
                 return x
             res = Ten(t.shape, [cl(x) for x in t.data])
             if isinstance(outp, Ten):
